@@ -4,6 +4,7 @@ package main
 
 import (
 	"go/ast"
+	"go/token"
 	"go/types"
 	"strings"
 
@@ -252,6 +253,84 @@ func checkC08(c *Ctx) {
 		ru.Check(propagators[want], "callbacks."+want, "propagates Unscoped to its nested session", p.FuncDecl(pkgCallbacks, want).Body.Pos(), "parent's Unscoped reaches the nested statement", want+" builds a nested session without propagating the parent's Unscoped: Unscoped() is silently lost for preloads / association deletes")
 	}
 
+	// ---- C08.unscoped-source ----
+	// The soft-delete modifiers are also applied to scratch statements (relation-join ON, join-table
+	// look-ups) that carry the handle (DB) but not the per-chain Unscoped flag: the flag must be read
+	// through the handle's statement, unless every such scratch literal copies Unscoped.
+	rsrc := c.Rule("C08.unscoped-source", "soft-delete modifiers read Unscoped of the handle's statement (or every scratch statement they are applied to copies it)", 2)
+	scratchCopies := true
+	nScratch := 0
+	scratchFields := map[string]bool{}
+	for _, f := range p.FuncsOf(pkgGorm, pkgCallbacks) {
+		info := f.Pkg.TypesInfo
+		for _, l := range applyLoops(f) {
+			// target is a local Statement value built by a literal?
+			var tid *ast.Ident
+			ast.Inspect(l.rs.Body, func(n ast.Node) bool {
+				if ce, ok := n.(*ast.CallExpr); ok {
+					if sel, ok := ce.Fun.(*ast.SelectorExpr); ok {
+						if id, ok := unparen(sel.X).(*ast.Ident); ok && tid == nil {
+							tid = id
+						}
+					}
+				}
+				return true
+			})
+			if tid == nil {
+				continue
+			}
+			def := resolveLocal(f, tid)
+			lit, ok := unparen(def).(*ast.CompositeLit)
+			if def == nil || !ok {
+				continue
+			}
+			if tv, ok := info.Types[lit]; !ok || !types.Identical(tv.Type, stmtT) {
+				continue
+			}
+			nScratch++
+			scratchFields[l.field] = true
+			if u := compositeField(lit, "Unscoped"); u == nil || !strings.HasSuffix(canon(info, u), ".Statement.Unscoped") {
+				scratchCopies = false
+			}
+		}
+	}
+	// the modifier types handed out for the clause kinds that are applied to scratch statements
+	var modNames []string
+	for fld := range scratchFields {
+		if prov := p.MethodOpt(p.Named(pkgGorm, "DeletedAt"), fld); prov != nil {
+			pf := p.Src(prov)
+			ast.Inspect(pf.Body, func(n ast.Node) bool {
+				if cl, ok := n.(*ast.CompositeLit); ok {
+					if tv, ok := pf.Pkg.TypesInfo.Types[cl]; ok {
+						if nt, ok := tv.Type.(*types.Named); ok && p.MethodOpt(nt, "ModifyStatement") != nil {
+							modNames = append(modNames, nt.Obj().Name())
+						}
+					}
+				}
+				return true
+			})
+		}
+	}
+	rsrc.Check(len(modNames) >= 1, "gorm.DeletedAt", "modifiers applied to scratch statements", sdqPos(p), strings.Join(modNames, ","), "no soft-delete modifier is applied to scratch statements any more; rule lost its anchor")
+	for _, name := range modNames {
+		m := p.MethodDecl(pkgGorm, name, "ModifyStatement")
+		c.Touch(m)
+		sp := paramName(m, 0)
+		via, own := false, false
+		ast.Inspect(m.Body, func(n ast.Node) bool {
+			if e, ok := n.(ast.Expr); ok {
+				switch canon(m.Pkg.TypesInfo, e) {
+				case sp + ".DB.Statement.Unscoped":
+					via = true
+				case sp + ".Unscoped":
+					own = true
+				}
+			}
+			return true
+		})
+		rsrc.Check(via && !own || (own && scratchCopies && nScratch > 0), m.Name(), "Unscoped read through the handle", m.Body.Pos(), "scratch statements (join ON, join-table look-ups) see the user's Unscoped", "the modifier tests the Unscoped field of the statement it is applied to, but "+itoa(nScratch)+" scratch statements receive these modifiers without copying Unscoped: Unscoped() is ignored for relation joins / join-table look-ups")
+	}
+
 	// ---- C08.regroup ----
 	rr := c.Rule("C08.regroup", "soft-delete query modifier: regroup lone-OR WHERE before the filter, under !Unscoped and marker absent; marker stored with the filter", 4)
 	sdq := p.MethodDecl(pkgGorm, "SoftDeleteQueryClause", "ModifyStatement")
@@ -432,6 +511,10 @@ func checkC08(c *Ctx) {
 			}
 		}
 	}
+}
+
+func sdqPos(p *Program) token.Pos {
+	return p.MethodDecl(pkgGorm, "SoftDeleteQueryClause", "ModifyStatement").Body.Pos()
 }
 
 func allSuffix(ps []string, suf string) bool {
